@@ -730,3 +730,43 @@ Qed.
 
 Lemma sort_by_norm_perm pts : Permutation (sort_by_norm pts) (seq 0 (length pts)).
 Proof. apply argsort_perm. Qed.
+
+(* ---------- the model's own stable argsort satisfies the hypotheses on sidx ---------- *)
+Lemma SS_sorted_from key : forall l cn,
+    (forall x, In x l -> cn <= key x) ->
+    StronglySorted (fun a b => key a <= key b) l -> sorted_from key cn l.
+Proof.
+  induction l as [|x r IH]; intros cn Hcn Hs; [exact I|].
+  inversion Hs as [|? ? Hr Hx]; subst. split; [apply Hcn; now left|].
+  apply IH; [|exact Hr]. rewrite Forall_forall in Hx. exact Hx.
+Qed.
+
+Lemma sort_by_norm_sorted pts :
+  match sort_by_norm pts with
+  | [] => True
+  | i0 :: _ => sorted_from (keyn pts) (keyn pts i0) (sort_by_norm pts)
+  end.
+Proof.
+  unfold sort_by_norm. change (fun i : nat => norm2 (pnt pts i)) with (keyn pts).
+  pose proof (argsort_sorted (keyn pts) (seq 0 (length pts))) as Hs.
+  destruct (argsort (keyn pts) (seq 0 (length pts))) as [|i0 r]; [exact I|].
+  apply SS_sorted_from; [|exact Hs]. intros x [<-|Hx]; [lia|].
+  inversion Hs as [|? ? _ H0]; subst. rewrite Forall_forall in H0. apply H0, Hx.
+Qed.
+
+Theorem uniquify_model_guarded t pts :
+  0 < t -> trans_in_range t pts ->
+  cross_free t pts [] (norm_clusters false t (keyn pts) (sort_by_norm pts)) ->
+  result_ok t pts (uniquify t pts).
+Proof.
+  intros Ht Htr Hx. apply uniquify_guarded; try assumption. apply sort_by_norm_perm.
+Qed.
+
+Theorem uniquify_model_chained t pts d :
+  0 < t -> Forall (fun p => length p = d) pts -> trans_in_range t pts ->
+  result_ok t pts (uniquify_with true t pts (sort_by_norm pts)).
+Proof.
+  intros Ht Hd Htr. apply (uniquify_chained_correct t pts _ d); try assumption.
+  - apply sort_by_norm_perm.
+  - apply sort_by_norm_sorted.
+Qed.
